@@ -7,6 +7,9 @@ LEVEL = "proof"
 DESIGN_REF = "DESIGN.md section 5, C22 (and the chainsim driver at the start of section 5)"
 PROP_FILES = ["props/Properties_C22.v"]
 RULE = ("cases: operation scripts run against a fresh regtest node (TestChain100Setup) with real transactions and blocks: "
+        "(lockpoints) BIP68-locked children (nSequence 1..3 height type; 512-second time type with blocks 600 s apart) of outputs confirmed in "
+        "the tip block or one below, then a competing branch of depth 1-2 (fork) that removes the funding block and ends one block higher, "
+        "optionally re-confirming the funding transaction in its first or second block; "
         "(maturity) a coinbase spent at depth 99/100/101 with a child and a mixed coinbase/unconfirmed spender, then invalidateblock of one or "
         "two tips, an overtaking fork, or mine-then-disconnect; (resurrect) parents confirmed in a block (one of them non-standard) whose "
         "children stay in the pool, then invalidate / reconsider / forks that re-confirm a parent, confirm a conflict, or are empty; "
@@ -18,8 +21,8 @@ RULE = ("cases: operation scripts run against a fresh regtest node (TestChain100
         "child with its unconfirmed parents: a low-fee parent paid for by the child, two parents, a parent already in the pool, a package "
         "replacing pool entries, refused packages (not child-with-parents, conflict in package, missing input), followed by a block or a "
         "disconnect. After every operation: the "
-        "dump of mapTx / mapNextTx / totals / TxGraph ancestors / input status in CoinsTip, CTxMemPool::check, TestBlockValidity of the whole "
-        "pool. Non-trivial = at least one submission; distinct = distinct scripts.")
+        "dump of mapTx / mapNextTx / totals / TxGraph ancestors / input status in CoinsTip, CTxMemPool::check, a fresh CalculateLockPointsAtTip + CheckSequenceLocksAtTip per entry, "
+        "TestBlockValidity of the whole pool (any verdict but ok is a predicate failure entry-not-valid-for-next-block). Non-trivial = at least one submission; distinct = distinct scripts.")
 ASSUMPTIONS = ["txids identify transactions among those in play (hash premise U_inj of the theorems); nLockTime is a uint32 (U_wf)",
                "policy is not decided by the model: fee / standardness / RBF economics / TRUC / cluster limits enter as an arbitrary stage at "
                "which the implementation said no, TrimToSize's choice of victims as an arbitrary set (the model removes its descendant closure); "
@@ -29,7 +32,9 @@ ASSUMPTIONS = ["txids identify transactions among those in play (hash premise U_
                "package submission is replayed as the sequence of single acceptances of the transactions the implementation added (in its "
                "order), with LimitMempoolSize once at the end; which members of a package enter is the implementation's answer",
                "amounts (C01) and script execution (C12) are not modelled: script validity is a bit of the model transaction; sequence locks "
-               "(BIP68, cached LockPoints) are transcribed and tied by the correspondence but not part of the proved invariant",
+               "(BIP68): the cached LockPoints are transcribed (incl. maxInputBlock = highest confirmed input block, the tip block included) and proved "
+               "valid for the active chain and satisfied in the next block; that they agree with a FRESH evaluation is checked on every "
+               "implementation dump (clause 9 of check_dump, premise fresh_bip68_ok of C22_dump_predicate) but not proved",
                "block validity is ConnectBlock's business: the model's block_ok keeps the structural checks the mempool argument needs "
                "(fresh txids, inputs created earlier, nTime above the parent's median time past, height in int range)",
                "the totals clause of the dump predicate assumes the sums are in the range of uint64 / int64 (totals_in_range)"]
